@@ -531,3 +531,99 @@ def d5_10(ctx):
                       f"`{src(e)}` does not remove exactly the `{prefix}` prefix: {dict(list(bad.items())[:3])} (program / routine / task names beginning with characters of the prefix are mangled; their tags are then requested under a scope that does not exist)", prefix=prefix)
     if n_sites < 3:
         ctx.undecided(ckey(lx.key + "._isolate_user_tags", "strip"), fn, f"only {n_sites} prefix-stripping expressions found under startswith guards")
+
+
+@rule(P, "D5.11", "T-WITNESS", floor=10)
+def d5_11(ctx):
+    """Tag records and template member records folded on witness symbol words / member records (sa/miniinterp.py; structure
+    definitions, the Array factory and reduce are witnesses): the struct flag, dimension count, template id / elementary code,
+    BOOL bit position, array length and member offset of the witness must appear in the record that is built."""
+    import struct as _st
+
+    from ..miniinterp import Obj, run_function
+
+    lx = _lx(ctx)
+    BASE_TAG_BIT = ctx.folder.module_value(lx.module.name, "BASE_TAG_BIT")
+
+    def hook(call, env, it):
+        path = attr_path(call.func) or ""
+        name = call_name(call) or ""
+        if path == "self._get_data_type":
+            iid = it.ev(call.args[0], env)
+            return {"name": f"udt{iid}", "type_class": ("struct-class", iid)}
+        if name == "Array":
+            kw = {k.arg: it.ev(k.value, env) for k in call.keywords}
+            args = [it.ev(a, env) for a in call.args]
+            return ("array", kw.get("length_", args[0] if args else None), kw.get("element_type_", args[1] if len(args) > 1 else None))
+        if path == "DataTypes.get_type":
+            from .common import enum_method_results
+
+            tbl = ctx.model.cls("pycomm3.cip.data_types:DataTypes")
+            x = it.ev(call.args[0], env)
+            res_, _, _ = enum_method_results(ctx, tbl, tbl.methods["get_type"], [x])
+            return res_[x]
+        if name == "str" and len(call.args) == 1:
+            v_ = it.ev(call.args[0], env)
+            if isinstance(v_, ClassRef):
+                return v_.ci.name  # the data-type metaclass prints a type as its name
+            return str(v_) if isinstance(v_, (int, float, str, bytes)) else UNKNOWN
+        if name == "reduce":
+            seq = it.ev(call.args[1], env)
+            out = it.ev(call.args[2], env) if len(call.args) > 2 else 1
+            for x in seq:
+                out *= x
+            return out
+        return UNKNOWN
+
+    def cls_name(v):
+        return v.ci.name if isinstance(v, ClassRef) else v
+
+    ct = lx.methods["_create_tag"]
+    raw = lambda st, dims=(0, 0, 0), sc=0: {"symbol_type": st, "software_control": sc, "instance_id": 5, "symbol_address": 1, "symbol_object_address": 2, "external_access": "Read/Write", "dimensions": list(dims)}  # noqa: E731
+    cases = [
+        ("DINT scalar", raw(0x00C4), {"tag_type": "atomic", "data_type": "DINT", "data_type_name": "DINT", "dim": 0, "type_class": "DINT"}),
+        ("BOOL bit 3", raw(0x03C1), {"tag_type": "atomic", "data_type": "BOOL", "bit_position": 3, "dim": 0, "type_class": "BOOL"}),
+        ("REAL[10]", raw(0x20CA, (10, 0, 0)), {"tag_type": "atomic", "data_type": "REAL", "dim": 1, "type_class": ("array", 10, "REAL")}),
+        ("DINT[2,3]", raw(0x40C4, (2, 3, 0)), {"tag_type": "atomic", "data_type": "DINT", "dim": 2, "type_class": ("array", 6, "DINT")}),
+        ("UDT 0x123", raw(0x8123), {"tag_type": "struct", "data_type_name": "udt291", "template_instance_id": 0x123, "dim": 0, "type_class": ("struct-class", 0x123)}),
+        ("UDT 0xFCE [4]", raw(0xAFCE, (4, 0, 0)), {"tag_type": "struct", "template_instance_id": 0xFCE, "dim": 1, "type_class": ("array", 4, ("struct-class", 0xFCE))}),
+        ("alias", raw(0x00C4, sc=0), {"alias": True}), ("base tag", raw(0x00C4, sc=BASE_TAG_BIT if isinstance(BASE_TAG_BIT, int) else 0), {"alias": not isinstance(BASE_TAG_BIT, int)}),
+    ]
+    for label, rt, want in cases:
+        kind, res = run_function(ctx, lx.module, ct, {"self": Obj(), ct.args.args[1].arg: "T", ct.args.args[2].arg: rt}, call_hook=hook, deep=False)
+        key = ckey(lx.key + "._create_tag", f"witness:{label}")
+        if kind == "unknown":
+            ctx.undecided(key, ct, f"_create_tag not foldable on {label}: {res}")
+            continue
+        if kind != "return" or not isinstance(res, dict):
+            ctx.violation(key, ct, f"_create_tag({label}) gives {kind} {res!r} instead of a tag record")
+            continue
+        norm = lambda v: tuple(norm(x) for x in v) if isinstance(v, tuple) else cls_name(v)  # noqa: E731
+        diffs = [f"{k}={norm(res.get(k))!r} (expected {v!r})" for k, v in want.items() if norm(res.get(k)) != v]
+        if res.get("tag_name") != "T" or res.get("instance_id") != 5:
+            diffs.append("tag_name / copied symbol attributes")
+        ctx.check(not diffs, key, ct, f"{label}: {want}", f"tag record for symbol type {rt['symbol_type']:#06x} ({label}) deviates: {diffs}", witness=label)
+    mi = lx.methods["_parse_template_data_member_info"]
+    mcases = [
+        ("DINT @8", _st.pack("<HHI", 0, 0x00C4, 8), {"offset": 8, "tag_type": "atomic", "data_type": "DINT", "data_type_name": "DINT", "type_class": "DINT"}, ("array", 0)),
+        ("BOOL bit 5 @3", _st.pack("<HHI", 5, 0x00C1, 3), {"offset": 3, "tag_type": "atomic", "data_type": "BOOL", "bit": 5, "type_class": "BOOL"}, None),
+        ("INT[4] @12", _st.pack("<HHI", 4, 0x20C3, 12), {"offset": 12, "tag_type": "atomic", "data_type": "INT", "array": 4, "type_class": ("array", 4, "INT")}, None),
+        ("UDT 0x234 @16", _st.pack("<HHI", 0, 0x8234, 16), {"offset": 16, "tag_type": "struct", "data_type_name": "udt564", "type_class": ("struct-class", 0x234)}, ("array", 0)),
+        ("UDT 0x234 [3] @20", _st.pack("<HHI", 3, 0xA234, 20), {"offset": 20, "tag_type": "struct", "array": 3, "type_class": ("array", 3, ("struct-class", 0x234))}, None),
+    ]
+    for label, info, want, extra in mcases:
+        kind, res = run_function(ctx, lx.module, mi, {"self": Obj(), mi.args.args[1].arg: info}, call_hook=hook, deep=False)
+        key = ckey(lx.key + "._parse_template_data_member_info", f"witness:{label}")
+        if kind == "unknown":
+            ctx.undecided(key, mi, f"member record not foldable on {label}: {res}")
+            continue
+        if kind != "return" or not isinstance(res, dict):
+            ctx.violation(key, mi, f"member record {label} gives {kind} {res!r}")
+            continue
+        norm = lambda v: tuple(norm(x) for x in v) if isinstance(v, tuple) else cls_name(v)  # noqa: E731
+        diffs = [f"{k}={norm(res.get(k))!r} (expected {v!r})" for k, v in want.items() if norm(res.get(k)) != v]
+        if extra is not None and res.get(extra[0]) != extra[1]:
+            diffs.append(f"{extra[0]}={res.get(extra[0])!r} (expected {extra[1]!r})")
+        if "bit" in want and "array" in res:
+            diffs.append("BOOL member carries an array length")
+        ctx.check(not diffs, key, mi, f"{label}: {want}", f"template member record {label} deviates: {diffs}", witness=label)
